@@ -22,12 +22,20 @@ import (
 // lazyNTTLimit: the lazy butterflies keep values in [0, 6q) (ring/ntt.go), so q must satisfy 6q < 2^64.
 const lazyNTTLimit = uint64(math.MaxUint64 / 6)
 
-// sigFor returns the signature for a failed arithmetic oracle `what` in the context (area, moduli): one stable sig
-// for the known defect class "CheckModuli accepts primes the lazy NTT cannot handle", the generic one otherwise.
+// supportedLimit: the largest modulus size the library documents and generates itself: MaxModuliSize = 60 bits for
+// LogQ requests (primes up to 2^60.5) and 61 bits for LogP (downstream of 2^61), i.e. every modulus is < 2^61.
+const supportedLimit = uint64(1) << 61
+
+// sigModulusTooLarge is the one signature of the defect "CheckModuli accepts Q primes up to 62 and P primes up to 63
+// bits although the arithmetic (lazy NTT needs 6q < 2^64, the rescaling even less) only supports moduli below 2^61".
+const sigModulusTooLarge = "C19/accept/CheckModuli-accepts-modulus>=2^61"
+
+// sigFor returns the signature for a failed arithmetic oracle `what` in the context (area, moduli): the known
+// defect's signature when a modulus of the context is in its input class, the generic one otherwise.
 func sigFor(area, what string, moduli []uint64) string {
 	for _, q := range moduli {
-		if q > lazyNTTLimit {
-			return "C19/accept/CheckModuli-accepts-prime-above-2^64/6"
+		if q >= supportedLimit {
+			return sigModulusTooLarge
 		}
 	}
 	return "C19/" + area + "/" + what
@@ -47,7 +55,8 @@ func checkStructure(c *engine.Chooser, area, tag string, p rlwe.Parameters) bool
 			c.Fail("C19/"+area+"/non-NTT-friendly-modulus-accepted", "%s: modulus %d accepted, != 1 mod NthRoot=%d", tag, q, nth)
 			ok = false
 		case seen[q]:
-			c.Fail("C19/"+area+"/duplicate-modulus-accepted", "%s: modulus %d accepted twice in Q∪P", tag, q)
+			// duplicates inside Q or inside P are refused by ring.NewRing; what gets through is a modulus shared by Q and P
+			c.Fail("C19/accept/Q-and-P-share-a-modulus-accepted", "%s: modulus %d is in Q and in P (the basis extension Q<->P and the division by P need coprime Q and P)", tag, q)
 			ok = false
 		}
 		seen[q] = true
@@ -198,7 +207,7 @@ func checkEncDec(c *engine.Chooser, area, tag string, p rlwe.Parameters) {
 	}
 	bound := new(big.Int).SetInt64(int64(math.Ceil(p.NoiseBound())) + 1)
 	var diff []*big.Int
-	if n <= 256 {
+	if n <= 256 && p.RingType() == ring.Standard {
 		// independent of rlwe.Decryptor: CRT + integer schoolbook with the secret lifted to Z
 		diff = uni.SubCentered(uni.Phase(p, ct.El(), sk), m, Q)
 	} else {
@@ -209,20 +218,27 @@ func checkEncDec(c *engine.Chooser, area, tag string, p rlwe.Parameters) {
 		c.Fail(sigFor(area, "encrypt-decrypt", moduli), "%s: |phase - plaintext|_inf = %v > truncation bound %v of the error distribution", tag, e, bound)
 		return
 	}
-	// the secret must have the declared shape (ternary with the declared weight where one is declared)
-	if t, ok := p.Xs().(ring.Ternary); ok && t.H > 0 {
+	// the secret must have the declared shape: ternary (with the declared weight where one is declared), or within the
+	// declared truncation bound of a Gaussian
+	coeffs := uni.SecretCoeffs(p, sk)
+	switch t := p.Xs().(type) {
+	case ring.Ternary:
 		w := 0
-		for _, s := range uni.SecretCoeffs(p, sk) {
+		for _, s := range coeffs {
 			if s.Sign() != 0 {
 				w++
 				if s.CmpAbs(big.NewInt(1)) != 0 {
-					c.Fail("C19/"+area+"/secret-not-ternary", "%s: secret coefficient %v", tag, s)
+					c.Fail(sigFor(area, "secret-not-ternary", moduli), "%s: secret coefficient %v", tag, s)
 					return
 				}
 			}
 		}
-		if w != t.H {
-			c.Fail("C19/"+area+"/secret-weight", "%s: declared H=%d, sampled secret has weight %d", tag, t.H, w)
+		if t.H > 0 && w != t.H {
+			c.Fail(sigFor(area, "secret-weight", moduli), "%s: declared H=%d, sampled secret has weight %d", tag, t.H, w)
+		}
+	case ring.DiscreteGaussian:
+		if e := ref.InfNorm(coeffs); e.Cmp(big.NewInt(int64(math.Ceil(math.Abs(t.Bound)))+1)) > 0 {
+			c.Fail(sigFor(area, "secret-exceeds-declared-bound", moduli), "%s: |s|_inf = %v, declared bound %v", tag, e, t.Bound)
 		}
 	}
 	c.Count(1)
@@ -263,21 +279,32 @@ func smokeBGV(c *engine.Chooser, area, tag string, p bgv.Parameters) {
 		vals[j] = (uint64(j)*0x9E3779B97F4A7C15 + 1) % t // distinct-ish residues incl. large ones
 	}
 	vals[0] = t - 1
-	pt := bgv.NewPlaintext(p, p.MaxLevel())
-	if err := ecd.Encode(vals, pt); err != nil {
-		c.Fail("C19/"+area+"/bgv-encode-error", "%s: %v", tag, err)
-		return
-	}
 	got := make([]uint64, n)
-	if err := ecd.Decode(pt, got); err != nil {
-		c.Fail("C19/"+area+"/bgv-decode-error", "%s: %v", tag, err)
-		return
-	}
-	for j := range vals {
-		if got[j] != vals[j] {
-			c.Fail(sigFor(area, "bgv-encode-decode", append(p.QP(), t)), "%s: t=%d slot %d: decoded %d, encoded %d", tag, t, j, got[j], vals[j])
+	// plaintexts exist at every level: the top one and level 0 (modulus q0 alone) are the two extremes
+	var pt *rlwe.Plaintext
+	for _, lvl := range []int{0, p.MaxLevel()} {
+		pt = bgv.NewPlaintext(p, lvl)
+		if err := ecd.Encode(vals, pt); err != nil {
+			c.Fail("C19/"+area+"/bgv-encode-error", "%s: level %d: %v", tag, lvl, err)
 			return
 		}
+		if err := ecd.Decode(pt, got); err != nil {
+			c.Fail("C19/"+area+"/bgv-decode-error", "%s: level %d: %v", tag, lvl, err)
+			return
+		}
+		for j := range vals {
+			if got[j] != vals[j] {
+				c.Fail(sigFor(area, "bgv-encode-decode", append(p.QP(), t)), "%s: t=%d q0=%d level %d slot %d: Decode(Encode(v)) = %d, v = %d (no encryption involved)", tag, t, p.Q()[0], lvl, j, got[j], vals[j])
+				return
+			}
+		}
+	}
+	// a fresh secret-key encryption is m + t·e with |e| <= B: it decrypts when t·(B + 1) < Q/2 (noise budget
+	// precondition; tiny Q with a comparatively large t is accepted by the constructor but has no budget at all)
+	budget := new(big.Int).Mul(new(big.Int).SetUint64(t), big.NewInt(int64(math.Ceil(p.NoiseBound()))+2))
+	if budget.Lsh(budget, 1).Cmp(p.QBigInt()) >= 0 {
+		c.Cover("bgv", "no-noise-budget")
+		return
 	}
 	sk := rlwe.NewKeyGenerator(p).GenSecretKeyNew()
 	ct, err := rlwe.NewEncryptor(p, sk).EncryptNew(pt)
